@@ -36,6 +36,8 @@ class Driver:
         self.sub = None          # in-progress submission: (flavor, process, prio)
         self.nsub = self.ndata = self.nreset = 0
         self.booted = False
+        self.refused = None      # a submission already answered with a failure
+        self.nlate = 0
         self.arch_from = None
         self.moves = []
         w.moves = self.moves
@@ -70,6 +72,10 @@ class Driver:
         if self.sub is not None and self.sub[3]:
             evs.append(('s3',))
             evs.append(('sf',))
+        if self.refused is not None and self.nlate < 1:
+            # a left-over callback of a submission that was already refused and
+            # answered (e.g. its compliance check ending later)
+            evs.append(('late-failure',))
         if self.ndata < self.max_data:
             evs.append(('newdata',))
         evs.append(('dispatch',))
@@ -100,6 +106,7 @@ class Driver:
                 if not accepted:
                     p.failure(r)
                     self.sub = None
+                    self.refused = p
             elif kind == 's3':
                 _fl, p, _prio, _a = self.sub
                 self.sub = None
@@ -108,6 +115,10 @@ class Driver:
                 _fl, p, _prio, _a = self.sub
                 self.sub = None
                 p.failure(None)
+                self.refused = p
+            elif kind == 'late-failure':
+                self.nlate += 1
+                self.refused.failure(None)
             elif kind == 'newdata':
                 self.ndata += 1
                 farm.ARCHIVE = True
@@ -125,13 +136,20 @@ class Driver:
         w = self.w
         return (w.snapshot(), self.booted,
                 None if self.sub is None else (self.sub[0], self.sub[2], self.sub[3]),
-                self.nsub, self.ndata, self.nreset, self.arch_from)
+                self.nsub, self.ndata, self.nreset, self.arch_from,
+                self.refused is not None, self.nlate)
 
 
 def check(dr, ev, exc, before, report):
     import transitions
     w = dr.w
     f = w.fsm
+    if ev[0] == 'late-failure':
+        now = dr.canon()
+        if now[0] != before[0] or exc is not None:
+            report('C10/answered-submission-acts-again',
+                   f'a second failure() of an already answered submission changed the machine: {before[0]} -> {now[0]} '
+                   f'(exception {exc!r})')
     # (1) every state change is an edge of state.dot
     prev = before[0][0]
     allowed = set()
